@@ -78,6 +78,20 @@ def obligations(tier, seed):
                       contract='for every half-integer x = n + 0.5, 1 <= n <= 1000 (as %s): inverse_in<%s>(us, hertz(x)) == trunc(10^6 / x) == floor(2*10^6 / (2n+1)) -- the division '
                                'happens in the common floating type and the cast comes last (a restricted input family: the full floating domain makes two IEEE dividers that no back end equates)' % (ct, ctt),
                       functions_under_contract=('au::inverse_in<TargetRep>',)))
+        # the same claim for EVERY bit pattern, as a structural obligation: the floating division is uninterpreted on both sides
+        lo, hi = ('-2147483649.0', '2147483648.0') if tr == 'i32' else ('-9223373136366403584.0f', '9223372036854775808.0f')
+        fdiv = 'LL2C_FDIV64(1000000.0, x)' if rep == 'f64' else 'LL2C_FDIV32(1000000.0f, x)'
+        body_s = '''
+  ASSUME(%s == %s);    /* the uninterpreted * agrees with IEEE-754 at this one constant point (1 x 10^6, the library's conversion of the constant 1) */
+  %s q = %s;
+  ASSUME(q > %s && q < %s);    /* the raw cast (TargetRep)q is defined */
+  CHECK(%s(x) == (%s)q, "explicit-integral-rep-is-the-cast-of-K-over-x-divided-in-the-common-floating-type");
+''' % ((('LL2C_FMUL64(1.0, 1000000.0)', '1000000.0') if rep == 'f64' else ('LL2C_FMUL32(1.0f, 1000000.0f)', '1000000.0f')) + (ct, fdiv, lo, hi, w.name, ctt))
+        obs.append(Ob(id='C15.inverse-float-to-int.structural.%s_%s' % (rep, tr), prop='C15', group='C15.inversef', prelude=PRE, wrappers=[w], inputs=[(ct, 'x')], body=body_s, fp=True, budget=300,
+                      defs=('LL2C_UF_FP=1',),
+                      contract='forall bit patterns x (%s) for which the cast is defined: inverse_in<%s>(us, hertz(x)) == (%s)(10^6 / x), ONE division in the common floating type applied to the '
+                               'exact constant and the stored value, cast last (structural: / uninterpreted on both sides); no UB:*' % (ct, ctt, ctt),
+                      functions_under_contract=('au::inverse_in<TargetRep>',)))
     # ---- trig / cmath wrappers against libm stubs
     for (rep, sfx) in (('f64', ''), ('f32', 'f')):
         ct = G.ctype(rep); bits = 'vf_f64_bits' if rep == 'f64' else 'vf_f32_bits'
